@@ -253,3 +253,76 @@ pub fn par_for(n: usize, f: &(dyn Fn(usize) + Sync)) {
         }
     });
 }
+
+/// Lengths and counts around the usual thresholds of small-string / small-vector / chunked implementations.
+pub fn thresholds(thorough: bool) -> Vec<usize> {
+    let mut v: Vec<usize> = vec![1, 2, 7, 8, 9, 15, 16, 17, 22, 23, 24, 25, 31, 32, 33, 63, 64, 65, 127, 128, 129, 255, 256, 257, 511, 512, 513, 1023, 1024, 1025];
+    if thorough { v.extend([4095, 4096, 4097, 65535, 65536, 65537]); }
+    v
+}
+
+/// `unit` repeated until the text is at least `len` bytes long
+pub fn inflate(unit: &str, len: usize) -> String {
+    let mut s = String::with_capacity(len + unit.len());
+    while s.len() < len { s.push_str(unit); }
+    s
+}
+
+/// SCALE corpus: PURL strings in which ONE component (or the number of segments / qualifiers / checksum entries) is grown
+/// to each threshold size while the rest stays small. `f(string)`.
+pub fn for_all_scaled_strings(thorough: bool, f: &(dyn Fn(&str) + Sync)) {
+    let units: [&str; 12] = ["a", "B", "é", "%41", "%2e", ".", "-", "_", "a.B", "Æ", "+", "1"];
+    let types: [&str; 6] = ["t", "npm", "pypi", "nuget", "maven", "golang"];
+    let ths = thresholds(thorough);
+    let jobs: Vec<(usize, usize)> = (0..ths.len()).flat_map(|i| (0..units.len()).map(move |j| (i, j))).collect();
+    par_for(jobs.len(), &|ix| {
+        let (i, j) = jobs[ix];
+        let (n, u) = (ths[i], units[j]);
+        let big = inflate(u, n);
+        // a variant whose last unit differs (a fast path that stops early must still see it)
+        let mut big_tail = big.clone(); big_tail.push_str("Z%5A");
+        let mut head_big = String::from("Zz"); head_big.push_str(&big);
+        for ty in types {
+            for x in [&big, &big_tail, &head_big] {
+                // one long component
+                f(&format!("pkg:{ty}/ns/{x}"));
+                f(&format!("pkg:{ty}/{x}/n@1"));
+                f(&format!("pkg:{ty}/a/{x}/b/n"));
+                f(&format!("pkg:{ty}/ns/n@{x}"));
+                f(&format!("pkg:{ty}/ns/n?k={x}"));
+                f(&format!("pkg:{ty}/ns/n?a=1&k={x}&z=2#s"));
+                f(&format!("pkg:{ty}/ns/n#{x}"));
+                f(&format!("pkg:{ty}/ns/n#a/{x}/b"));
+                f(&format!("pkg:{ty}/ns/{x}@{x}?k={x}#{x}"));
+            }
+            // long qualifier keys (valid and invalid alphabets), long types
+            if n <= 1025 {
+                f(&format!("pkg:{ty}/ns/n?{}=v", big));
+                f(&format!("pkg:{ty}/ns/n?{}=v&{}=w", big, big.to_ascii_uppercase()));
+                f(&format!("pkg:{}/ns/n", big));
+                f(&format!("pkg:{}{}/ns/n", ty, big));
+            }
+            // many segments / qualifiers / checksum entries
+            if n <= 1025 {
+                let segs: Vec<String> = (0..n).map(|k| format!("{u}{k}")).collect();
+                f(&format!("pkg:{ty}/{}/n", segs.join("/")));
+                f(&format!("pkg:{ty}/ns/n#{}", segs.join("/")));
+                f(&format!("pkg:{ty}/{}/n#{}", segs.join("//"), segs.join("/./")));
+                let quals: Vec<String> = (0..n).map(|k| format!("k{}={u}{k}", n - k)).collect();
+                f(&format!("pkg:{ty}/ns/n?{}", quals.join("&")));
+                let mut dup = quals.clone(); dup.push(format!("K{}=x", n / 2 + 1));
+                f(&format!("pkg:{ty}/ns/n?{}", dup.join("&")));
+                let mut empties = quals.clone(); empties.insert(n / 2, "e=".into());
+                f(&format!("pkg:{ty}/ns/n?{}", empties.join("&")));
+                let sums: Vec<String> = (0..n).map(|k| format!("Alg{}:{:02X}", n - k, k % 256)).collect();
+                f(&format!("pkg:{ty}/ns/n?checksum={}", sums.join(",")));
+                let mut dups = sums.clone(); dups.push(format!("ALG{}:00", n / 2 + 1));
+                f(&format!("pkg:{ty}/ns/n?checksum={}", dups.join(",")));
+            }
+            // long checksum hex
+            f(&format!("pkg:{ty}/ns/n?checksum=sha1:{}", inflate("aB", n)));
+            f(&format!("pkg:{ty}/ns/n?checksum=sha1:{}x", inflate("aB", n)));
+            f(&format!("pkg:{ty}/ns/n?checksum=sha1:{}a", inflate("aB", n & !1)));
+        }
+    });
+}
